@@ -303,6 +303,11 @@ VARIANTS = [
     V( 'recv-timeout-as-empty', NETWORK, "@readable( default=None )\ndef recv(", "@readable( default=b'' )\ndef recv(", fires=[ 'N-RECV' ] ),
     V( 'localize-replace-tzinfo', TIMES, "return tzinfo.localize( datetime.datetime( *map( int, terms )), is_dst=is_dst )", "return datetime.datetime( *map( int, terms )).replace( tzinfo=tzinfo )", fires=[ 'T-LOCALIZE' ] ),
     V( 'localize-constant-hint', TIMES, "return tzinfo.localize( datetime.datetime( *map( int, terms )), is_dst=is_dst )", "return tzinfo.localize( datetime.datetime( *map( int, terms )), is_dst=False )", fires=[ 'T-LOCALIZE' ] ),
+    V( 'setup-tag-name-compatibility-normalised', LOGIX, ( "import traceback\n", "key_utf8 = key\n try:" ), ( "import traceback\nimport unicodedata\n", "key_utf8	= key\n            key_utf8		= unicodedata.normalize( 'NFKC', key_utf8 )\n            try:" ), fires=[ 'T-SYMBOL' ] ),
+    V( 'setup-tag-name-composed', LOGIX, ( "import traceback\n", "key_utf8 = key\n try:" ), ( "import traceback\nimport unicodedata\n", "key_utf8	= key\n            key_utf8		= unicodedata.normalize( 'NFC', key_utf8 )\n            try:" ), silent=[ 'T-SYMBOL' ] ),
+    V( 'setup-tag-name-transcoded-in-one-step', LOGIX, "key_8859 = key_bytes.decode('iso-8859-1')", "key_8859		= key_utf8.encode( 'iso-8859-1' ).decode( 'iso-8859-1' )", silent=[ 'T-SYMBOL' ] ),
+    V( 'setitem-only-when-different', DEVICE, "self.value = next( iter( value ))\n else:\n self.value[key] = value", "self.value	= next( iter( value ))\n            elif self.value[key] != value:\n                self.value[key]	= value", fires=[ 'W-ATTR' ] ),
+    V( 'setitem-branches-swapped', DEVICE, "if self.scalar:\n self.value = next( iter( value ))\n else:\n self.value[key] = value", "if not self.scalar:\n                self.value[key]	= value\n            else:\n                self.value	= next( iter( value ))", silent=[ 'W-ATTR' ] ),
     V( 'symbol-raw-key-lookup', DEVICE, "tag_canonical = canonicalize_tag( tag )\n address = symbol.get( tag_canonical, None )", "tag_canonical		= canonicalize_tag( tag )\n    address			= symbol.get( tag, None )", fires=[ 'T-SYMBOL' ] ),
     V( 'symbol-casefold', DEVICE, "tag_canonical = tag.lower()", "tag_canonical		= tag.casefold()", fires=[ 'T-SYMBOL' ] ),
     V( 'prims-octets-substate-named-first', 'server/enip/parser.py',
@@ -521,6 +526,8 @@ VARIANTS = [
     V( 'tnet-bool-decoder', TNETS, "value = payload == b'true'", "value = payload == b'True'", fires=[ 'T-TNET' ] ),
     V( 'tnet-unknown-tag', TNETS, "typ = b'^'", "typ = b'%'", fires=[ 'T-TNET' ] ),
     V( 'tnet-isinstance-int-first', TNETS, "if type(data) in ((int,long) if sys.version_info[0] < 3 else (int,)): # noqa: F821", "if isinstance( data, int ):", fires=[ 'T-TNET' ] ),
+    V( 'udp-handler-names-exception', MAIN, "except:\n # Parsing failure.  Suck out some remaining input to give us some context, but don't re-raise", "except Exception:\n                # Parsing failure.  Suck out some remaining input to give us some context, but don't re-raise", silent=[ 'E-CONTAIN' ] ),
+    V( 'udp-handler-reraises', MAIN, "except:\n # Parsing failure.  Suck out some remaining input to give us some context, but don't re-raise\n if stats:", "except:\n                # Parsing failure.  Suck out some remaining input to give us some context, but don't re-raise\n                if not stats:\n                    raise\n                if stats:", fires=[ 'E-CONTAIN' ] ),
     V( 'econtain-close-removed', MAIN, "except:\n pass\n conn.close()", "except:\n                pass", fires=[ 'E-CONTAIN' ] ),
     V( 'econtain-runner-narrow-except', NETWORK, "return super( server_runner, self ).run()\n except Exception as exc:", "return super( server_runner, self ).run()\n        except AssertionError as exc:", fires=[ 'E-CONTAIN' ] ),
     # ---- rules added after the first seeding round
@@ -620,6 +627,8 @@ VARIANTS = [
     V( 'type-setter-skips-conversion', DEVICE, "self.default = type(self.default)( v )", "self.default		= v if isinstance( v, type( self.default )) else type(self.default)( v )", fires=[ 'D-TYPE' ], why='seed C03 round 6' ),
     V( 'echo-envelope-replaced', UCMM, "unc_send= rsp.enip.CIP.send_data.CPF.item[1].unconnected_send", "data.enip= rsp.enip\n                                        unc_send= data.enip.CIP.send_data.CPF.item[1].unconnected_send", fires=[ 'D-ECHO' ], why='seed C06 round 6' ),
     V( 'udp-peer-not-remembered', MAIN, "addr = frm\n stats,_ = stats_for( addr )", "stats,_	= stats_for( frm )", fires=[ 'E-CONTAIN' ], why='seed C08 round 6' ),
+    V( 'print-values-as-numbers', MAIN, "key.indices( len( self ))[1]-1 if isinstance( key, slice ) else key,\n value ))\n return value", "key.indices( len( self ))[1]-1 if isinstance( key, slice ) else key,\n                    ', '.join( '%g' % v for v in ( value if isinstance( key, slice ) else [ value ] ))))\n            return value", fires=[ 'W-PRINT' ] ),
+    V( 'print-values-as-text', MAIN, "key.indices( len( self ))[1]-1 if isinstance( key, slice ) else key,\n value ))\n return value", "key.indices( len( self ))[1]-1 if isinstance( key, slice ) else key,\n                    ', '.join( '%s' % ( v, ) for v in ( value if isinstance( key, slice ) else [ value ] ))))\n            return value", silent=[ 'W-PRINT' ] ),
     V( 'print-raw-slice-bound', MAIN, "key.indices( len( self ))[1]-1 if isinstance( key, slice ) else key,\n value ))\n\n # Iterate", "key.stop-1 if isinstance( key, slice ) else key,\n                value ))\n\n    # Iterate", fires=[ 'W-PRINT' ], why='seed C05 round 6' ),
     V( 'gate-status-and-count', PARSER, "predicate=lambda path=None, data=None, **kwds: data[path+'_ext.size'],", "predicate=lambda path=None, data=None, **kwds: data[path] and data[path+'_ext.size'],", fires=[ 'G-GATE' ], why='seed C10 round 6' ),
     V( 'gate-count-compared', PARSER, "predicate=lambda path=None, data=None, **kwds: data[path+'_ext.size'],", "predicate=lambda path=None, data=None, **kwds: data[path+'_ext.size'] > 0,", silent=[ 'G-GATE' ] ),
